@@ -52,7 +52,14 @@ def rule_y1(chk: Check, ix: Index):
                     "a SyntaxError raised inside ast.literal_eval (bad escape, oversized number, NUL) escapes with the "
                     "literal's own file name '<unknown>' and coordinates relative to the literal, not to the source")
     chk.floor("Y1-error-ownership", 2)
-    chk.floor("Y1-foreign-error", 4)
+    # nothing else evaluates source text through the compiler (each such call would be another foreign-error site)
+    for rel, mod in list(ix.modules.items()) + [(repo.PARSER_X, gen)]:
+        for n in ast.walk(mod):
+            if isinstance(n, ast.Call) and norm_stmt(n.func) in ("eval", "compile", "ast.parse", "exec"):
+                chk.count("Y1-foreign-error")
+                chk.fail("Y1-foreign-error", f"{rel}:{norm_stmt(n)[:40]}", f"{rel}:{n.lineno}",
+                         f"`{norm_stmt(n)[:50]}` hands source text to the compiler: its errors carry their own coordinates")
+    chk.floor("Y1-foreign-error", 1)
 
 
 def _args_layout(fn: ast.FunctionDef) -> Optional[list[str]]:
